@@ -359,3 +359,48 @@ func verifH_C10_response_optional_parts() {
 
 //verif:harness id=C10 tier=quick,thorough witness=end bounds="turning validation errors into responses: ConvertErrors / ValidationErrorEncoder on every RequestError shape of the C14 convert_errors harness (parameter absent or in path/query/header, body absent or present, eight error shapes incl. parse errors nested in parse errors, three route answers); assertion = no panic"
 func verifH_C10_convert_errors() { verifH_C14_convert_errors() }
+
+//verif:harness id=C10 tier=quick,thorough witness=end bounds="media types declared without a schema (legal) or with one: application/json, application/x-www-form-urlencoded, multipart/form-data, text/plain, application/octet-stream x schema in {absent, object with a string property, string} x a non-empty body of that type (well-formed or garbage), as a request body (required or not) and as a response body; MultiError symbolic; assertion = no panic"
+func verifH_C10_schemaless_media_types() {
+	k := verifChoose("mediaType", 5)
+	declared := []string{"application/json", "application/x-www-form-urlencoded", "multipart/form-data", "text/plain", "application/octet-stream"}[k]
+	sent := declared
+	if k == 2 {
+		sent = "multipart/form-data; boundary=XX"
+	}
+	good := []string{`{"s":"v"}`, "s=v", "--XX\r\nContent-Disposition: form-data; name=\"s\"\r\n\r\nv\r\n--XX--\r\n", "v", "v"}[k]
+	body := good
+	if verifChoose("garbage", 2) == 1 {
+		body = "%zz{="
+	}
+	mt := &openapi3.MediaType{}
+	switch verifChoose("schema", 3) {
+	case 1:
+		mt.Schema = &openapi3.SchemaRef{Value: &openapi3.Schema{Type: &openapi3.Types{"object"}, Properties: openapi3.Schemas{"s": {Value: &openapi3.Schema{Type: &openapi3.Types{"string"}}}}}}
+	case 2:
+		mt.Schema = &openapi3.SchemaRef{Value: &openapi3.Schema{Type: &openapi3.Types{"string"}}}
+	}
+	if mt.Validate(context.Background()) != nil {
+		return
+	}
+	opts := &Options{MultiError: verifNondetBool("multi")}
+	if verifChoose("side", 2) == 0 {
+		rb := &openapi3.RequestBody{Required: verifChoose("required", 2) == 1, Content: openapi3.Content{declared: mt}}
+		op := &openapi3.Operation{RequestBody: &openapi3.RequestBodyRef{Value: rb}}
+		req := &http.Request{Method: "POST", Header: http.Header{"Content-Type": []string{sent}}, URL: &url.URL{Path: "/"}, Body: verifBody(body), ContentLength: int64(len(body))}
+		input := &RequestValidationInput{Request: req, Route: &routers.Route{Spec: &openapi3.T{}, PathItem: &openapi3.PathItem{Post: op}, Operation: op, Method: "POST"}, Options: opts, QueryParams: url.Values{}, PathParams: map[string]string{}}
+		if err := ValidateRequest(context.Background(), input); err != nil {
+			_ = err.Error()
+		}
+	} else {
+		d := "d"
+		resps := openapi3.NewResponsesWithCapacity(1)
+		resps.Set("200", &openapi3.ResponseRef{Value: &openapi3.Response{Description: &d, Content: openapi3.Content{declared: mt}}})
+		op := &openapi3.Operation{Responses: resps}
+		in := verifRespInput(op, "GET", 200, http.Header{"Content-Type": []string{sent}}, []byte(body), opts)
+		if err := ValidateResponse(context.Background(), in); err != nil {
+			_ = err.Error()
+		}
+	}
+	verifReach("end")
+}
